@@ -436,6 +436,9 @@ struct Take {
     by: u64,
     victim: u64,
     meta: bool,
+    /// the check that precedes this rename in the code was passed legitimately by this actor: its last re-read of the
+    /// lock (stale) / read of the lock by its loop (corrupt) / read of the meta (stale meta) saw a file of a DEAD pid
+    checked: bool,
 }
 #[derive(Default)]
 struct Outcome {
@@ -561,6 +564,10 @@ fn run_case(c: &Case, policy: &mut dyn FnMut(usize, &[usize], &[u64]) -> Option<
         out.obs.extend(o);
     };
     obs_now(&mut out, &alive, &frozen, &ctl);
+    // what each actor's last check saw: Some(true) = a file of a dead pid (resp. a half-written lock of a dead creator)
+    let mut reread_ok: Vec<Option<bool>> = vec![None; n];
+    let mut rdlock_ok: Vec<Option<bool>> = vec![None; n];
+    let mut stmeta_ok: Vec<Option<bool>> = vec![None; n];
     let mut pos = 0usize;
     while pos < max_events {
         let views: Vec<View> = (0..n).map(|i| ctl.view(i)).collect();
@@ -597,6 +604,14 @@ fn run_case(c: &Case, policy: &mut dyn FnMut(usize, &[usize], &[u64]) -> Option<
                     let lock_before = data_lock(&data);
                     let meta_before = meta_file(&ripd::authority_meta_path(&data));
                     let grace_ok = !c.assume_grace || !creator.map(|p| is_alive(p, &alive, c)).unwrap_or(false);
+                    let dead_code = |code: u64| code >= 2 && !is_alive(code - 2, &alive, c);
+                    match pc {
+                        13 => reread_ok[i] = None,
+                        14 => reread_ok[i] = Some(dead_code(lock_before)),
+                        9 => rdlock_ok[i] = Some(lock_before == 1 && !creator.map(|p| is_alive(p, &alive, c)).unwrap_or(false)),
+                        16 => stmeta_ok[i] = Some(dead_code(meta_before)),
+                        _ => {}
+                    }
                     if !ctl.grant(i, Cmd::Go, o, grace_ok) {
                         out.stuck = true;
                         break;
@@ -610,7 +625,12 @@ fn run_case(c: &Case, policy: &mut dyn FnMut(usize, &[usize], &[u64]) -> Option<
                     if lock_before != 0 && lock_after == 0 {
                         if let Some(v) = creator {
                             if v != me && is_alive(v, &alive, c) {
-                                out.takes.push(Take { step: pos, pc, by: me, victim: v, meta: false });
+                                let checked = match pc {
+                                    15 => reread_ok[i] == Some(true),
+                                    20 => rdlock_ok[i] == Some(true),
+                                    _ => false,
+                                };
+                                out.takes.push(Take { step: pos, pc, by: me, victim: v, meta: false, checked });
                             }
                         }
                         creator = None;
@@ -618,7 +638,7 @@ fn run_case(c: &Case, policy: &mut dyn FnMut(usize, &[usize], &[u64]) -> Option<
                     if meta_before >= 2 && meta_after != meta_before {
                         let v = meta_before - 2;
                         if v != me && is_alive(v, &alive, c) {
-                            out.takes.push(Take { step: pos, pc, by: me, victim: v, meta: true });
+                            out.takes.push(Take { step: pos, pc, by: me, victim: v, meta: true, checked: pc == 17 && stmeta_ok[i] == Some(true) });
                         }
                     }
                 }
@@ -714,11 +734,16 @@ fn classify(o: &Outcome) -> Option<(String, String)> {
     }
     let first = o.takes.first();
     let root = |t: &Take| -> String {
-        match (t.pc, t.meta) {
-            (15, false) => "stale_cleanup_renames_fresh_lock_of_live_contender".into(),
-            (20, false) => "corrupt_cleanup_renames_fresh_lock_of_live_contender".into(),
-            (17, true) => "stale_cleanup_renames_meta_of_live_authority".into(),
-            (pc, m) => format!("file_of_live_pid_removed_at_pc{pc}_{}", if m { "meta" } else { "lock" }),
+        match (t.pc, t.meta, t.checked) {
+            // the three known check-then-rename races: the check was passed on a dead pid's file, the file changed since
+            (15, false, true) => "stale_cleanup_renames_fresh_lock_of_live_contender".into(),
+            (20, false, true) => "corrupt_cleanup_renames_fresh_lock_of_live_contender".into(),
+            (17, true, true) => "stale_cleanup_renames_meta_of_live_authority".into(),
+            // the same renames WITHOUT a legitimately passed check are something else (a missing re-read / comparison)
+            (15, false, false) => "stale_cleanup_renames_live_lock_without_passing_the_pid_check".into(),
+            (20, false, false) => "corrupt_cleanup_renames_live_lock_never_seen_invalid".into(),
+            (17, true, false) => "stale_cleanup_renames_live_meta_without_passing_the_pid_check".into(),
+            (pc, m, _) => format!("file_of_live_pid_removed_at_pc{pc}_{}", if m { "meta" } else { "lock" }),
         }
     };
     if let Some(d) = o.first_double {
